@@ -604,3 +604,30 @@ func naList(l []ANameAddr) string {
 	}
 	return "[" + strings.Join(s, " | ") + "]"
 }
+
+func firstDiffStr(a, b string) int {
+	for i := 0; i < len(a) && i < len(b); i++ {
+		if a[i] != b[i] {
+			return i
+		}
+	}
+	if len(a) < len(b) {
+		return len(a)
+	}
+	return len(b)
+}
+
+func clip(s string, at int) string {
+	lo, hi := at-8, at+16
+	if lo < 0 {
+		lo = 0
+	}
+	if hi > len(s) {
+		hi = len(s)
+	}
+	if lo > hi {
+		lo = hi
+	}
+	return s[lo:hi]
+}
+
